@@ -7,8 +7,14 @@ from typing import Callable, Iterable, Optional
 
 from framelint.core import Ctx
 from framelint.srcmodel import FuncInfo, AnalysisError, walk_own, body_without_docstring
-from framelint.canon import (Sigma, Canon, CanonOptions, canon_function, diff_paths, show, S, to_poly, Poly, skey,
+from framelint.canon import (Sigma, Canon, CanonOptions, diff_paths, show, S, to_poly, Poly, skey,
                              atoms_of, contains)
+from framelint.canon import canon_function as _canon_function_expanded
+
+
+def canon_function(fi, model=None, opts=None):   # the generic checkers match shapes: look through every local
+    return _canon_function_expanded(fi, model, opts, expand=True)
+
 
 GEOM = "frame/geometry/geometry.py"
 DIE = "frame/die/die.py"
@@ -299,3 +305,32 @@ def mutating_calls_on_attr(ctx: Ctx, attr: str):
                     and isinstance(n.func.value, ast.Attribute) and n.func.value.attr == attr:
                 out.append((f, n))
     return out
+
+
+def region_canon(ctx: Ctx, fi: FuncInfo, stmts: list, prelude: Optional[list] = None, opts: Optional[CanonOptions] = None) -> tuple:
+    """canonical form of a statement region of ``fi`` in the same expanded normal form as canon_function(fi):
+    locals defined anywhere in the function are looked through and the remaining ones are numbered as in the whole
+    function's normal form"""
+    from framelint.canon import Normalizer
+    whole = Canon(fi, ctx.model, opts)
+    norm = Normalizer(whole.function(), keep_identity=False)
+    c = Canon(fi, ctx.model, opts)
+    if prelude:
+        c.block(prelude)
+    raw = c.block(stmts)
+    out = norm.apply(raw)
+    # assignments to eliminated locals are now 'e = e': drop them
+    def clean(block):
+        res = []
+        for st in block:
+            if isinstance(st, tuple) and st and st[0] == "set" and len(st) == 3 and st[1] == st[2]:
+                continue
+            if isinstance(st, tuple) and st and st[0] == "if" and len(st) == 4:
+                st = ("if", st[1], clean(st[2]), clean(st[3]))
+            elif isinstance(st, tuple) and st and st[0] == "for" and len(st) == 5:
+                st = ("for", st[1], st[2], clean(st[3]), clean(st[4]))
+            elif isinstance(st, tuple) and st and st[0] == "while" and len(st) == 4:
+                st = ("while", st[1], clean(st[2]), clean(st[3]))
+            res.append(st)
+        return tuple(res)
+    return clean(out)
